@@ -22,7 +22,7 @@ ASSUMPTIONS = ["the pessimistic set is taken as observed (its correctness is C11
                "bands: rectangles 1e-12 rel for domination (closed form), ellipsoids 2e-6+1e-4*mag"]
 N = {"quick": 190, "thorough": 3500}
 VARS = ["PaVeBa", "PaVeBaGP-IH", "PaVeBaGP-DE", "PartialGP-rect", "PartialGP-ell", "VOGP", "EpsilonPAL", "Auer", "Auer-emp", "VOGP", "EpsilonPAL"]
-REQUIRE = {"quick": {"must_discard": 300, "must_keep": 1500, "runs": 150, "vogp_ad_runs": 10, "frozen_witness_scenario_reached": 2, "large_pessimistic_set_runs": 3, "pessimistic_set_above_64_seen": 1, "frozen_witness_bandit_scenario_reached": 1, "auer_certified_only_by_per_objective_sum": 10,
+REQUIRE = {"quick": {"runs_reaching_200_rounds": 4, "must_discard": 300, "must_keep": 1500, "runs": 150, "vogp_ad_runs": 10, "frozen_witness_scenario_reached": 2, "large_pessimistic_set_runs": 3, "pessimistic_set_above_64_seen": 1, "frozen_witness_bandit_scenario_reached": 1, "auer_certified_only_by_per_objective_sum": 10,
                      **{f"must_discard::{v}": 5 for v in set(VARS)}, **{f"must_keep::{v}": 20 for v in set(VARS)}}}
 TIMEOUT = {"quick": 1500, "thorough": 7200}
 
@@ -101,6 +101,21 @@ def directed_large_pessimistic_set(mon, rng, variant):
             runchecks.check_discard(mon, tr, st)
             if st.get("pess") is not None and len(st["pess"]) > 64:
                 mon.count("pessimistic_set_above_64_seen")
+
+
+LONG = ["Auer", "PaVeBaGP-IH", "VOGP", "Auer-emp", "EpsilonPAL", "PartialGP-rect", "PaVeBaGP-DE", "PaVeBa"]
+
+
+def long_run(mon, rng, k):
+    """260-330 rounds of the same few designs (anything periodic in the round counter is passed several times)"""
+    variant = LONG[k % len(LONG)]
+    case, order = runs.long_case(rng, variant)
+    tr = runs.run_case(case, order, mon, max_extra_steps=0)
+    mon.count("runs")
+    mon.count("long_runs")
+    for st in tr.steps:
+        if st["crash"] is None:
+            runchecks.check_discard(mon, tr, st)
 
 
 def ad_run(mon, rng):
@@ -198,6 +213,9 @@ def directed_frozen_witness_bandit(mon):
 
 
 def shard(mon, tier, rng, shard_no, nshards):
+    for j in range(1 if tier == "quick" else 4):
+        if tier == "thorough" or shard_no % 2 == 0:
+            long_run(mon, rng, shard_no // 2 + j)
     if shard_no == 1 % nshards:
         directed_frozen_witness_bandit(mon)
     for _ in range(1 if tier == "quick" else 6):
